@@ -169,6 +169,7 @@ def acc_folds(b, g):
     accs = sorted({T[0] for h, ts in loops.items() for T, _ in ts if len(T) == 1 and g.local_ty(T[0]) == 'u64'})
     for a in accs:
         step_ok = False
+        step_blocks = set()
         for p in explore(g, max_visits=1, havoc=True, limit=2000):
             if p.end != 'cut':
                 continue
@@ -176,12 +177,15 @@ def acc_folds(b, g):
             if is_call(v, 'Fn::call') or is_call(v, 'FnMut::call_mut'):
                 hv = [x for x in walk(v) if x[0] == 'havoc' and x[1] == (a,)]
                 step_ok = step_ok or bool(hv)
+                if hv:
+                    step_blocks.add(v[3][1] if len(v) > 3 and v[3] else None)
         if not step_ok:
             continue
-        # the value the accumulator has when the loop is entered
+        # the value the accumulator has when the (innermost) loop performing the step is entered
         seeds = []
         sy = Sym(g)
-        body = set().union(*g.loops().values()) if g.loops() else set()
+        inner = [body_ for h_, body_ in g.loops().items() if any(sb in body_ for sb in step_blocks if sb is not None)]
+        body = min(inner, key=len) if inner else (set().union(*g.loops().values()) if g.loops() else set())
         for bid, bl in g.blocks.items():
             if bl['cleanup'] or bid in body:
                 continue
@@ -245,7 +249,18 @@ def r19_2(ctx):
     if n == 0:
         ctx.undecided(R, 'fold-seed', 'no fold over the per-key values found in the union batch (shape left the recognised family)', fn=un)
     # the merged value is what gets inserted
+    vals = []
     for p in explore(un, max_visits=1, havoc=True, limit=4000):
+        if p.end == 'cut' and helper_fold == {un.path}:
+            # loop form inside this function (possibly an inlined helper): over all paths with a merger configured the inserted value
+            # is the accumulator, except where the value list was found empty
+            ins = [c for c in path_calls(p) if isinstance(c[2], str) and c[2].endswith('Builder::<W>::insert')]
+            mg = [d for d in p.cdecisions() if d[2][0] == 'discr' and any(y[0] == 'field' and y[2] == 'value_merger' for y in walk(d[2][1]))]
+            if ins and mg and mg[-1][3] == 1:
+                v = ins[0][3][2]
+                empty = any(d[2][0] == 'discr' and d[3] == 0 and (is_call(d[2][1], '::split_first') or is_call(d[2][1], '::first') or is_call(d[2][1], '::next')) for d in p.cdecisions())
+                vals.append((any(x[0] in ('havoc', 'phi') or is_call(x, 'Fn::call') for x in walk(v)) or seed_is_element(v), empty, v))
+            continue
         if p.end == 'cut':
             ins = [c for c in path_calls(p) if isinstance(c[2], str) and c[2].endswith('Builder::<W>::insert')]
             mg = [d for d in p.cdecisions() if d[2][0] == 'discr' and d[2][1][0] == 'field' and d[2][1][2] == 'value_merger']
@@ -260,6 +275,14 @@ def r19_2(ctx):
                 ok = any(is_call(x, '::fold') for x in walk(v)) or any(x[0] == 'havoc' for x in walk(v)) and bool(helper_fold)
                 ctx.check(R, ok, 'inserted-is-merged', 'with a merger configured the value inserted for a key must be the fold of all its values: %s' % fmt(v)[:80], fn=un)
                 break
+    _finish_inserted(ctx, R, un, vals)
+
+
+def _finish_inserted(ctx, R, un, vals):
+    if vals:
+        ok = any(a for a, e, v in vals) and all(a or e for a, e, v in vals)
+        bad = [fmt(v)[:40] for a, e, v in vals if not (a or e)]
+        ctx.check(R, ok, 'inserted-is-merged', 'with a merger configured the value inserted for a key must be the fold of all its values: %s' % bad, fn=un)
 
 
 def r19_3(ctx):
